@@ -190,7 +190,7 @@ theorem setAt_last (fs : List FileRec) (h h' : FileRec) : setAt (fs ++ [h]) fs.l
   rw [List.set_append_right _ _ (by omega)]
   simp
 
-theorem setAt_last' (fs : List FileRec) (h h' : FileRec) : setAt (fs ++ [h]) ((fs ++ [h]).length - 1) h' = fs ++ [h'] := by
+theorem setAt_lastIdx (fs : List FileRec) (h h' : FileRec) : setAt (fs ++ [h]) ((fs ++ [h]).length - 1) h' = fs ++ [h'] := by
   have : (fs ++ [h]).length - 1 = fs.length := by simp
   rw [this, setAt_last]
 
@@ -290,7 +290,7 @@ theorem idbFold_fileRec (c : Codec) (cs : List Case) (g : Bool) (hcs : FileCases
     simp only [List.singleton_append, idbFold_cons, permLine]
     rw [step_a c cs g hcs pk q _ ld _ _ f.uid f.gid (Int.ofNat n)
       (by rw [hn']; exact parsePerms_permText f.uid f.gid n hw.uid hw.gid hn)]
-    simp only [Res.bind, setAt_last', he]
+    simp only [Res.bind, setAt_lastIdx, he]
     exact idbFold_Z c cs g hcs _ rest zs hzs
   · rw [if_neg hcond]
     have h1 : f.mode.emod 512 = 0o644 := by omega
